@@ -194,7 +194,7 @@ def w(f): def rec: (.[]? |= rec) | f; rec;
 
 /// (b) documented equations, one obligation each
 fn equations(src: &mut Src) -> CaseResult {
-    let which = src.below(40);
+    let which = src.below(47);
     let sample = src.sample;
     let long = src.chance(40);
     let arr = MVal::Arr(gen_tied_array(src, long));
@@ -288,6 +288,13 @@ fn equations(src: &mut Src) -> CaseResult {
         36 => ("sort_by-array-key-form", format!("sort_by({f})"), format!("sort_by([{f}])"), arr.clone(), false),
         37 => ("reverse-twice-and-positions", "[(reverse | reverse), (reverse | .[0]), (reverse | length)]".into(), "[., .[-1], length]".into(), arr.clone(), true),
         38 => ("add-and-length-of-entries", "[(to_entries | length), (to_entries | map(.value))]".into(), "[length, [.[]]]".into(), if src.bool() { obj.clone() } else { arr.clone() }, true),
+        39 => ("paths-p-is-filtered-paths", "[paths(type == \"number\")], [paths(isarray)], [paths(. == $x)]".into(), "[paths as $p | select(getpath($p) | type == \"number\") | $p], [paths as $p | select(getpath($p) | isarray) | $p], [paths as $p | select(getpath($p) == $x) | $p]".into(), if src.bool() { any.clone() } else { arr.clone() }, true),
+        40 => ("to_entries-definition", "to_entries".into(), "[keys_unsorted[] as $k | {key: $k, value: .[$k]}]".into(), obj.clone(), true),
+        41 => ("from_entries-last-entry-of-a-key-wins", "[(to_entries | . + reverse | from_entries) == ., (to_entries | . + map(.value = 0) | from_entries) == map_values(0), ([] | from_entries)]".into(), "[true, true, {}]".into(), obj.clone(), true),
+        42 => ("any-all-short-forms", "[any, all, any(. == $x), all(. == $x), any(.[]; . == $x), all(.[]; . == $x)]".into(), "([.[] | select(.)] | length > 0) as $a | ([.[] | select(. | not)] | length == 0) as $b | ([.[] | select(. == $x)] | length) as $n | [$a, $b, $n > 0, $n == length, $n > 0, $n == length]".into(), arr.clone(), true),
+        43 => ("splits-by-literal-regex-is-division", format!("if {0} == \"\" or . == \"\" then \"skip\" else [[splits({1})], split({1}; \"\")] end", jstr(&t), jstr(&regex_quote(&t))), format!("if {0} == \"\" or . == \"\" then \"skip\" else [. / {0}, . / {0}] end", jstr(&t)), MVal::TStr(s.clone().into_bytes()), true),
+        44 => ("del-one-array-element", format!("length as $n | if $n == 0 then \"skip\" else ({d} % $n) as $i | [del(.[$i]), del(.[$i - $n]), del(.[$i:$i + 1]), del(.[$n:]), del(.[$i:$i])] end"), format!("length as $n | if $n == 0 then \"skip\" else ({d} % $n) as $i | (.[:$i] + .[$i + 1:]) as $r | [$r, $r, $r, ., .] end"), arr.clone(), true),
+        45 => ("del-one-object-key", ". as $o | [keys_unsorted[] as $k | del(.[$k]) | (. == ($o | with_entries(select(.key != $k)))) and (has($k) | not) and length == ($o | length) - 1 and all(keys_unsorted[] as $j | .[$j] == $o[$j]; .)] | all".into(), "true".into(), obj.clone(), true),
         _ => ("utf8bytelength-and-explode-length", "[utf8bytelength, length]".into(), "[(tobytes | length), (explode | length)]".into(), MVal::TStr(s.clone().into_bytes()), true),
     };
     let lhs = format!("{DEFS} {lhs}");
@@ -317,6 +324,18 @@ fn equations(src: &mut Src) -> CaseResult {
             Ok(ok)
         }
     }
+}
+
+/// the text as a regular expression that matches exactly itself
+fn regex_quote(t: &str) -> String {
+    let mut o = String::new();
+    for c in t.chars() {
+        if c.is_ascii_punctuation() {
+            o.push('\\');
+        }
+        o.push(c);
+    }
+    o
 }
 
 /// floor / round / ceil against IEEE arithmetic in the harness
@@ -368,7 +387,7 @@ pub fn run(mut rep: Report) -> ! {
     rep.set_rule(
         "arrays of 0..8 (and 21..120) elements drawn with repetition from a small pool of generated values and their equal-but-distinguishable twins (ties, duplicates, mixed types, small objects in both key orders), objects with arbitrary keys, ragged arrays of arrays, strings over an alphabet with multi-byte characters with needles cut from them, 16 key filters with 0/1/2 outputs and errors: \
          (a) sort_by/group_by/unique_by/min_by/max_by and their [f] forms against a model: keys from map([f]), ordered stably with the harness' transcription of the manual's order (stability, maximal runs, first of each run, an extremal element, null on []); a failing key filter must fail the built-in; \
-         (b) 40 documented equations/invariants evaluated by jaq on both sides (keys, entries round trip, indices completeness in arrays and strings, index/rindex, flatten and flatten($d) vs the manual's definitions, transpose shape law, combinations, bsearch insertion point, contains vs its four clauses, inside/in duality, walk, map, map_values, join, split, ltrimstr/rtrimstr vs startswith/endswith, tonumber/toboolean, abs, type and the is*/selection filters as a partition); \
+         (b) 47 documented equations/invariants evaluated by jaq on both sides (keys, entries round trip, indices completeness in arrays and strings, index/rindex, flatten and flatten($d) vs the manual's definitions, transpose shape law, combinations, bsearch insertion point, contains vs its four clauses, inside/in duality, walk, map, map_values, join, split, ltrimstr/rtrimstr vs startswith/endswith, tonumber/toboolean, abs, type and the is*/selection filters as a partition); \
          (c) floor/round/ceil against IEEE arithmetic (integers of any size unchanged); \
          non-trivial = array with >= 2 elements and a tie (a), an obligation inside its documented domain with an output (b), a non-small-integer number (c); distinct by (obligation, input, needle)",
     );
